@@ -7,13 +7,13 @@ results, provided the call handler does (`CallOK`). They touch closures only thr
 `σ.closures[id]?` (in `callVal`) — everything else is insensitive to closure bodies.
 -/
 namespace DarkluaModel.Sem.Heap
-variable {N : NumOps} {Q : QRel} {cx : Cx} {β : CellRel}
+variable {N : NumOps} {Q : QRel} {cx : Cx} {β : CellRel N}
 
 /-- the call handler maps related closures / states to related results -/
 structure CallOK (Q : QRel) (cx : Cx) (call : CallFn N) : Prop where
   /-- the context's assumption on the call handler -/
   cf : cx.CF N call
-  rel : ∀ (β : CellRel) c c' args σ σ', CRel Q cx β c c' → SRel Q cx β σ σ' →
+  rel : ∀ (β : CellRel N) c c' args σ σ', CRel Q cx β c c' → SRel Q cx β σ σ' →
     RRel Q cx β AEq (call c args σ) (call c' args σ')
 
 /-- closes a leaf goal `RRel Q cx β AEq (.ok a σ₁) (.ok a σ₂)` etc. from an `SRel` hypothesis in context -/
@@ -27,11 +27,11 @@ macro "rr_leaf" : tactic => `(tactic| first
 macro "rr_split" : tactic => `(tactic| repeat' (first | rr_leaf | split))
 
 structure LibP (Q : QRel) (cx : Cx) (call : CallFn N) (ρ : ExtOracle N) (d : Nat) : Prop where
-  callVal : ∀ {β : CellRel} f args σ σ', SRel Q cx β σ σ' → RRel Q cx β AEq (callVal call ρ d f args σ) (Sem.callVal call ρ d f args σ')
-  tostringVal : ∀ {β : CellRel} v σ σ', SRel Q cx β σ σ' → RRel Q cx β AEq (tostringVal call ρ d v σ) (Sem.tostringVal call ρ d v σ')
-  formatAux : ∀ {β : CellRel} fmt args acc σ σ', SRel Q cx β σ σ' →
+  callVal : ∀ {β : CellRel N} f args σ σ', SRel Q cx β σ σ' → RRel Q cx β AEq (callVal call ρ d f args σ) (Sem.callVal call ρ d f args σ')
+  tostringVal : ∀ {β : CellRel N} v σ σ', SRel Q cx β σ σ' → RRel Q cx β AEq (tostringVal call ρ d v σ) (Sem.tostringVal call ρ d v σ')
+  formatAux : ∀ {β : CellRel N} fmt args acc σ σ', SRel Q cx β σ σ' →
     RRel Q cx β AEq (formatAux call ρ d fmt args acc σ) (Sem.formatAux call ρ d fmt args acc σ')
-  libCall : ∀ {β : CellRel} name args σ σ', SRel Q cx β σ σ' → RRel Q cx β AEq (libCall call ρ d name args σ) (Sem.libCall call ρ d name args σ')
+  libCall : ∀ {β : CellRel N} name args σ σ', SRel Q cx β σ σ' → RRel Q cx β AEq (libCall call ρ d name args σ) (Sem.libCall call ρ d name args σ')
 
 variable {call : CallFn N} {ρ : ExtOracle N}
 
